@@ -45,6 +45,7 @@ pub fn run_history(seed: u64, h: &History) -> world_h::Outcome {
 
 pub fn worker(tier: &str, seed: u64, from: u64, to: u64, extra: &[String]) -> Agg {
     crate::quiet_panics();
+    entropy::settle_long_lived_threads();
     let t0 = Instant::now();
     let selftest = extra.iter().any(|e| e == "digests");
     let mut agg = Agg::default();
@@ -111,6 +112,7 @@ fn replay_value(property: &str, f: &Failure, case: &History, violation: &Value, 
 
 pub fn check(property: &str, tier: &str, started: Instant) -> i32 {
     crate::quiet_panics();
+    entropy::settle_long_lived_threads();
     let seed = runner::env_seed();
     let runs = runs_for(tier);
     let agg = match runner::fan_out("H", tier, seed, runs, runner::jobs(), &[]) {
@@ -211,6 +213,7 @@ pub fn check(property: &str, tier: &str, started: Instant) -> i32 {
 
 pub fn replay(v: &Value, path: &str) -> i32 {
     crate::quiet_panics();
+    entropy::settle_long_lived_threads();
     let property = v["property"].as_str().unwrap_or("");
     let signature = v["signature"].as_str().unwrap_or("");
     let seed = v["seed"].as_u64().unwrap_or(0);
